@@ -629,10 +629,11 @@ def _strip_ctx(d):
 
 
 def _replace_case(arg):
-    (slot_key, psrc, path, pat, ck, csrc0, lay, form) = arg
+    (slot_key, psrc, path, pat, ck, csrc0, lay, form) = arg[:8]
+    via = arg[8] if len(arg) > 8 else 'replace'
     from fst import FST
     csrc = layout(csrc0, lay, False)
-    res = {'slot': slot_key, 'child': ck, 'layout': lay, 'form': form}
+    res = {'slot': slot_key, 'child': ck, 'layout': lay, 'form': form, 'via': via}
     if csrc is None:
         res['skip'] = 'layout n/a'
         return res
@@ -661,7 +662,11 @@ def _replace_case(arg):
         res['skip'] = 'code form not constructible: ' + type(e).__name__
         return res
     try:
-        tgt.replace(code)
+        if via == 'replace':
+            tgt.replace(code)
+        else:       # the same operand replacement through the slice path
+            fld, idx = path[-1]
+            tgt.parent.put_slice(code, idx, idx + 1, fld, one=True)
     except Exception as e:
         res['raised'] = type(e).__name__
         return res
@@ -699,11 +704,13 @@ def replace_jobs(ctx, full):
                     if form == 'ast' and lay != 'bare':
                         continue
                     jobs.append((key, psrc, path, pat, ck, csrc, lay, form))
+                    if path[-1][1] is not None and key[1] in ('values', 'elts', 'args', 'bases', 'patterns', 'decorator_list'):
+                        jobs.append((key, psrc, path, pat, ck, csrc, lay, form, 'put_slice'))
     return jobs
 
 
 def _sig(r):
-    return f'C09|replace|{r["slot"][0]}.{r["slot"][1]}|{r["child"]}|{"no-parse" if "does not parse" in r.get("fail", "") else "regroup"}'
+    return f'C09|{r.get("via", "replace")}|{r["slot"][0]}.{r["slot"][1]}|{r["child"]}|{"no-parse" if "does not parse" in r.get("fail", "") else "regroup"}'
 
 
 def sweep(ctx):
@@ -715,7 +722,7 @@ def sweep(ctx):
             ctx.tally('replace_skipped', r['skip'])
             continue
         n += 1
-        ctx.count((r['slot'], r['child'], r['layout'], r['form']), r.get('pars_added', 1) != 0 or 'raised' in r)
+        ctx.count((r['slot'], r['child'], r['layout'], r['form'], r.get('via')), r.get('pars_added', 1) != 0 or 'raised' in r)
         if 'raised' in r:
             ctx.tally('replace_raised', r['raised'])
             continue
@@ -728,11 +735,11 @@ def sweep(ctx):
             continue
         if 'fail' in r:
             ctx.fail(_sig(r), f'replace at {r["slot"]} with {r["child"]} ({r["layout"]}, {r["form"]}): {r["fail"]}',
-                     {'slot': list(r['slot']), 'child': r['child'], 'layout': r['layout'], 'form': r['form'], 'result_src': r.get('src')})
+                     {'slot': list(r['slot']), 'child': r['child'], 'layout': r['layout'], 'form': r['form'], 'via': r.get('via', 'replace'), 'result_src': r.get('src')})
         elif 'fail_c01' in r:
             ctx.fail(f'C09|replace-positions|{r["slot"][0]}.{r["slot"][1]}|{r["child"]}',
                      f'replace at {r["slot"]} with {r["child"]}: {r["fail_c01"]}',
-                     {'slot': list(r['slot']), 'child': r['child'], 'layout': r['layout'], 'form': r['form'], 'result_src': r.get('src')})
+                     {'slot': list(r['slot']), 'child': r['child'], 'layout': r['layout'], 'form': r['form'], 'via': r.get('via', 'replace'), 'result_src': r.get('src')})
     ctx.notes['real_replace_edits'] = n
     ctx.exhaustive = not ctx.quick
     good = [r for r in res if 'src' in r and 'fail' not in r]
@@ -747,7 +754,7 @@ def search(ctx):
     for r in res:
         if 'fail' in r and r.get('valid_request', True):
             ctx.fail(_sig(r), f'replace at {r["slot"]} with {r["child"]} ({r["layout"]}, {r["form"]}): {r["fail"]}',
-                     {'slot': list(r['slot']), 'child': r['child'], 'layout': r['layout'], 'form': r['form'], 'result_src': r.get('src')})
+                     {'slot': list(r['slot']), 'child': r['child'], 'layout': r['layout'], 'form': r['form'], 'via': r.get('via', 'replace'), 'result_src': r.get('src')})
     ctx.notes['search_replace_edits'] = len(res)
 
 
@@ -760,6 +767,6 @@ def replay(ctx, data):
     pat = key in PAT_SLOTS
     psrc, path = (PAT_SLOTS if pat else SLOTS)[key]
     csrc = (PAT_CHILDREN if pat else CHILDREN)[w['child']]
-    r = _replace_case((key, psrc, path, pat, w['child'], csrc, w['layout'], w['form']))
+    r = _replace_case((key, psrc, path, pat, w['child'], csrc, w['layout'], w['form'], w.get('via', 'replace')))
     if 'fail' in r:
         ctx.fail('replay', r['fail'], w)
